@@ -10,6 +10,7 @@ FIRST_MISSED = {
     "C04-1", "C05-2", "C09-1", "C09-2", "C09-3", "C10-1", "C10-2", "C20-1",
     "C04-w2-1", "C05-w2-1", "C05-w2-2", "C05-w2-3", "C06-w2-2", "C08-w2-1", "C08-w2-2",
     "C09-w2-1", "C09-w2-2", "C09-w2-3", "C10-w2-1", "C10-w2-2", "C10-w2-3", "C15-w2-3", "C20-w2-1", "C20-w2-2",
+    "C04-w3-2", "C05-w3-2", "C08-w3-1", "C08-w3-2", "C09-w3-2", "C10-w3-1", "C10-w3-2", "C11-w3-1", "C20-w3-1", "C20-w3-2",
 }
 
 WHAT = {
@@ -61,6 +62,24 @@ WHAT = {
     "C20-w2-1": "resolved root cached process-wide: stale after the root symlink is re-pointed",
     "C20-w2-2": "fast path for a sibling of the loading file trusts a context spelled through a directory symlink",
     "C20-w2-3": "FSLibrary cleans as a rooted path: excess .. segments are dropped instead of rejected",
+    "C04-w3-1": "macro re-expansion counts a step but skips the limit check",
+    "C04-w3-2": "Eval of a symbol or literal at top level does not refill the budget",
+    "C05-w3-1": "literal fast path in eval leaks a nesting level when a limit error lands on it",
+    "C05-w3-2": "specialOpCall pops its frame inline: a host panic in an embedder-registered special operator leaks it",
+    "C06-w3-1": "a catch-all listed before the named binding stops the binding search for a host panic",
+    "C06-w3-2": "error raised inside a handler inherits the handled condition's stack and with it the panic marker",
+    "C08-w3-1": "true / false can be rebound through a function's formals",
+    "C08-w3-2": "functions defined while the language package is current run in the caller's package",
+    "C09-w3-1": "qualified-symbol resolution cached process-wide on the sealed program node",
+    "C09-w3-2": "json:dump-bytes returns a window onto a pooled encoder buffer",
+    "C10-w3-1": "frame name of a closure bound in several packages chosen by Go map iteration",
+    "C10-w3-2": "process-wide format-string template cache remembers a call-specific error",
+    "C11-w3-1": "sorted-map key list memoised and handed out: sorting it reorders later enumeration",
+    "C11-w3-2": "select/reject wrap the input's cells when nothing is dropped",
+    "C15-w3-1": "polling sleep in whole 25 ms steps for contexts without a Done channel",
+    "C15-w3-2": "default one-hour cap dropped when the context has a deadline",
+    "C20-w3-1": "case-insensitive confinement comparison",
+    "C20-w3-2": "missing final path element resolved by its parent only (link planted before the read)",
 }
 
 
